@@ -161,6 +161,8 @@ def tables(rep, F, tier):
     c02_kernels.run(rep, F, tier, only={"Triangle∩Coord", "Triangle⊇Coord", "Triangle.position", "Line∩Coord", "Line⊇Coord", "Line.position",
                                         "ring-step", "polygon-composition"}, rule="R3.6")
     c11.agreement(rep, F, rule="R3.6")
+    from . import c05
+    c05.winding_table(rep, F, rule="R3.6")
 
 
 def kernel_binding(rep, F):
